@@ -1,7 +1,7 @@
 (* C13/ProofsUnloaded.v — the per-frame unloaded-module map does not depend on the order in which the overlapping
    modules are visited; with hash containers it would.  The evil-json certificate pipeline from the JSON members. *)
 From Coq Require Import Lia Sorting.Permutation.
-From RM Require Import C13.Model C13.Proofs C13.Unloaded.
+From RM Require Import C13.Model C13.Proofs C13.ProofsLimits C13.Unloaded.
 Open Scope Z_scope.
 
 (* ---- BTreeSet<u64>::insert *)
@@ -98,6 +98,65 @@ Proof.
     + derive. known. reflexivity.
     + reflexivity.
     + rewrite IH. reflexivity.
+Qed.
+
+(* ---- BTreeSet<K> for any strict total order *)
+Lemma oset_insert_comm x y (l : list K) : oset_insert kltb x (oset_insert kltb y l) = oset_insert kltb y (oset_insert kltb x l).
+Proof.
+  induction l as [|z t IH]; cbn [oset_insert].
+  - destruct (tri x y) as [A B | -> | A B]; known; cbn [oset_insert]; known; reflexivity.
+  - destruct (tri x z) as [A1 B1 | -> | A1 B1]; destruct (tri y z) as [A2 B2 | -> | A2 B2]; known; cbn [oset_insert]; known.
+    + destruct (tri x y) as [A B | -> | A B]; known; cbn [oset_insert]; known; reflexivity.
+    + reflexivity.
+    + derive. known. reflexivity.
+    + reflexivity.
+    + reflexivity.
+    + reflexivity.
+    + derive. known. reflexivity.
+    + reflexivity.
+    + rewrite IH. reflexivity.
+Qed.
+
+Lemma oset_of_list_perm (l1 l2 : list K) : Permutation l1 l2 -> oset_of_list kltb l1 = oset_of_list kltb l2.
+Proof.
+  unfold oset_of_list. intros HP. generalize (@nil K). revert HP.
+  induction 1 as [|x l l' Hp IH|x y l|l l' l'' H1 IH1 H2 IH2]; intros s; cbn [fold_left].
+  - reflexivity.
+  - apply IH.
+  - rewrite oset_insert_comm. reflexivity.
+  - rewrite IH1. apply IH2.
+Qed.
+
+Fixpoint osorted (l : list K) : Prop :=
+  match l with [] => True | x :: t => (forall y, In y t -> kltb x y = true) /\ osorted t end.
+
+Lemma oset_insert_in x y (l : list K) : In y (oset_insert kltb x l) <-> y = x \/ In y l.
+Proof.
+  induction l as [|z t IH]; cbn [oset_insert In].
+  - intuition.
+  - destruct (tri x z) as [A B | -> | A B]; known; cbn [In]; [intuition|intuition|].
+    rewrite IH. intuition.
+Qed.
+
+Lemma oset_insert_sorted x (l : list K) : osorted l -> osorted (oset_insert kltb x l).
+Proof.
+  induction l as [|z t IH]; cbn [oset_insert osorted]; intros H.
+  - split; [intros ? []|exact I].
+  - destruct H as [Hz Ht]. destruct (tri x z) as [A B | -> | A B]; known; cbn [osorted].
+    + split; [|split; assumption]. intros y [<-|Hy]; [exact A|]. eapply ltb_trans; [exact A|apply Hz; exact Hy].
+    + split; assumption.
+    + split; [|apply IH; exact Ht]. intros y Hy. apply oset_insert_in in Hy. destruct Hy as [->|Hy]; [exact B|apply Hz; exact Hy].
+Qed.
+
+Lemma oset_of_list_spec (l : list K) : osorted (oset_of_list kltb l) /\ forall x, In x (oset_of_list kltb l) <-> In x l.
+Proof.
+  unfold oset_of_list.
+  assert (G : forall s, osorted s -> osorted (fold_left (fun s x => oset_insert kltb x s) l s) /\
+                         forall x, In x (fold_left (fun s x => oset_insert kltb x s) l s) <-> In x l \/ In x s).
+  { induction l as [|a t IH]; intros s Hs; cbn [fold_left In].
+    - split; [exact Hs|intuition].
+    - destruct (IH _ (oset_insert_sorted a s Hs)) as [S M]. split; [exact S|]. intros x. rewrite M, oset_insert_in. intuition. }
+  destruct (G [] I) as [S M]. split; [exact S|]. intros x. rewrite M. cbn [In]. intuition.
 Qed.
 
 Lemma fold_upsert_swap (e : K * Z) (l : list (K * Z)) : forall m,
@@ -337,7 +396,74 @@ Proof.
 Qed.
 End CertPipelineFacts.
 
-Lemma bytes_eqb_spec a : forall b, bytes_eqb a b = true <-> a = b.
+(* ---- closed form of the certificate fold: the GREATEST certificate (in the sort order) that lists the module *)
+Section CertClosedForm.
+Context {C M : Type} (meqb : M -> M -> bool) (cltb : C -> C -> bool).
+Hypothesis cltb_irrefl : forall a, cltb a a = false.
+Hypothesis cltb_trans : forall a b c, cltb a b = true -> cltb b c = true -> cltb a c = true.
+
+Fixpoint csorted (l : list (C * list M)) : Prop :=
+  match l with [] => True | x :: t => (forall y, In y t -> cltb (fst y) (fst x) = false) /\ csorted t end.
+
+Lemma insert_key_in (e : C * list M) l y : In y (insert_key cltb e l) <-> y = e \/ In y l.
+Proof.
+  induction l as [|x t IH]; cbn [insert_key In]; [intuition|].
+  destruct (cltb (fst e) (fst x)); cbn [In]; [intuition|]. rewrite IH. intuition.
+Qed.
+
+Lemma insert_key_csorted (e : C * list M) l : csorted l -> csorted (insert_key cltb e l).
+Proof.
+  induction l as [|x t IH]; cbn [insert_key csorted]; intros H.
+  - split; [intros ? []|exact I].
+  - destruct H as [Hx Ht]. destruct (cltb (fst e) (fst x)) eqn:E; cbn [csorted].
+    + split; [|split; assumption]. intros y [<-|Hy].
+      * apply (ltb_asym cltb cltb_irrefl cltb_trans). exact E.
+      * destruct (cltb (fst y) (fst e)) eqn:E2; [|reflexivity].
+        rewrite <- (Hx y Hy). symmetry. eapply cltb_trans; eassumption.
+    + split; [|apply IH; exact Ht]. intros y Hy. apply insert_key_in in Hy. destruct Hy as [->|Hy]; [exact E|apply Hx; exact Hy].
+Qed.
+
+Lemma sort_by_key_csorted (l : list (C * list M)) : csorted (sort_by_key cltb l) /\ forall y, In y (sort_by_key cltb l) <-> In y l.
+Proof.
+  induction l as [|e t [IS IM]]; cbn [sort_by_key fold_right]; [split; [exact I|intuition]|].
+  fold (sort_by_key cltb t). split; [apply insert_key_csorted; exact IS|].
+  intros y. rewrite insert_key_in, IM. cbn [In]. intuition.
+Qed.
+
+Lemma last_cert_csorted x : forall (l : list (C * list M)) acc, csorted l ->
+  (last_cert meqb x l acc = acc /\ forall e, In e l -> existsb (meqb x) (snd e) = false) \/
+  (exists c ms, last_cert meqb x l acc = Some c /\ In (c, ms) l /\ existsb (meqb x) ms = true /\
+                forall e, In e l -> existsb (meqb x) (snd e) = true -> cltb c (fst e) = false).
+Proof.
+  induction l as [|[c1 ms1] t IH]; intros acc Hs; cbn [last_cert].
+  - left. split; [reflexivity|intros ? []].
+  - destruct Hs as [Hx Ht]. destruct (existsb (meqb x) ms1) eqn:E.
+    + right. destruct (IH (Some c1) Ht) as [[R N]|[c [ms [R [Hin [L G]]]]]].
+      * exists c1, ms1. split; [exact R|]. split; [left; reflexivity|]. split; [exact E|].
+        intros e [<-|He] Le; [apply cltb_irrefl|]. rewrite (N e He) in Le. discriminate.
+      * exists c, ms. split; [exact R|]. split; [right; exact Hin|]. split; [exact L|].
+        intros e [<-|He] Le; [exact (Hx (c, ms) Hin)|apply G; assumption].
+    + destruct (IH acc Ht) as [[R N]|[c [ms [R [Hin [L G]]]]]].
+      * left. split; [exact R|]. intros e [<-|He]; [exact E|apply N; exact He].
+      * right. exists c, ms. split; [exact R|]. split; [right; exact Hin|]. split; [exact L|].
+        intros e [<-|He] Le; [cbn [snd] in Le; congruence|apply G; assumption].
+Qed.
+
+Lemma cert_greatest_wins (iter : list (C * list M)) x :
+  match cert_of meqb cltb iter x with
+  | None => forall e, In e iter -> existsb (meqb x) (snd e) = false
+  | Some c => (exists ms, In (c, ms) iter /\ existsb (meqb x) ms = true) /\
+              forall e, In e iter -> existsb (meqb x) (snd e) = true -> cltb c (fst e) = false
+  end.
+Proof.
+  unfold cert_of. destruct (sort_by_key_csorted iter) as [S Mem].
+  destruct (last_cert_csorted x (sort_by_key cltb iter) None S) as [[R N]|[c [ms [R [Hin [L G]]]]]]; rewrite R.
+  - intros e He. apply N. apply Mem. exact He.
+  - split; [exists ms; split; [apply Mem; exact Hin|exact L]|]. intros e He Le. apply G; [apply Mem; exact He|exact Le].
+Qed.
+End CertClosedForm.
+
+Lemma bytes_eqb_iff a : forall b, bytes_eqb a b = true <-> a = b.
 Proof.
   induction a as [|x a IH]; intros [|y b]; cbn [bytes_eqb]; try (split; [discriminate|discriminate]); [split; reflexivity|].
   rewrite andb_true_iff, Z.eqb_eq, IH. split; [intros [-> ->]; reflexivity|intros E; inversion E; split; reflexivity].
@@ -349,7 +475,20 @@ Lemma cert_pipeline_order_independent perm1 perm2 members x :
 Proof.
   intros H1 H2. unfold cert_pipeline.
   apply (cert_order_independent bytes_eqb bytes_ltb bytes_ltb_irrefl bytes_ltb_trans bytes_ltb_total (hm_of_members bytes_eqb members)).
-  - apply hm_of_members_nodup. exact bytes_eqb_spec.
+  - apply hm_of_members_nodup. exact bytes_eqb_iff.
   - apply H1.
   - apply H2.
+Qed.
+
+Lemma limits_render_order_independent {R} (fmt : bytes * (limit * limit * bytes) -> R) (p1 p2 : list entry -> list entry) data :
+  (forall m, Permutation (p1 m) m) -> (forall m, Permutation (p2 m) m) ->
+  limits_render fmt p1 data = limits_render fmt p2 data.
+Proof.
+  intros H1 H2. unfold limits_render. destruct (limits_from data) as [l| | |]; cbn; try reflexivity.
+  f_equal.
+  apply (render_order_independent bytes_ltb bytes_ltb_irrefl bytes_ltb_trans bytes_ltb_total _ (map conv_entry (to_map l))).
+  - rewrite map_map. erewrite map_ext; [apply to_map_names_distinct|].
+    intros [[[n s] h] u]. reflexivity.
+  - apply Permutation_map. apply H1.
+  - apply Permutation_map. apply H2.
 Qed.
